@@ -97,6 +97,11 @@ def compile_one(src, variant, extra=(), tag=''):
     cmd = VARIANTS[variant] + DEFS + INCS + list(extra) + ['-c', src]
     dfile = obj + '.d'
     sfile = obj + '.stamp'
+    with FileLock(obj + '.lock'):
+        return _compile_locked(src, variant, obj, cmd, dfile, sfile)
+
+
+def _compile_locked(src, variant, obj, cmd, dfile, sfile):
     deps = _parse_deps(dfile)
     if deps is not None and os.path.exists(obj) and os.path.exists(sfile):
         if open(sfile).read() == _stamp(cmd, deps):
@@ -126,6 +131,11 @@ def link(name, objs, variant, libs=()):
     os.makedirs(os.path.dirname(out), exist_ok=True)
     cmd = LINK[variant] + ['-o', out] + list(objs) + list(libs)
     sfile = out + '.stamp'
+    with FileLock(out + '.lock'):
+        return _link_locked(out, cmd, sfile, objs, libs, variant, name)
+
+
+def _link_locked(out, cmd, sfile, objs, libs, variant, name):
     st = _stamp(cmd, objs)
     if os.path.exists(out) and os.path.exists(sfile) and open(sfile).read() == st:
         return out
@@ -141,11 +151,15 @@ def link(name, objs, variant, libs=()):
     return out
 
 
-class BuildLock:
-    """Serialise builders (several checks may be started at once)."""
+class FileLock:
+    """Per-object / per-binary lock: several checks may build at once (flock is per open file
+    description, so it also serialises threads of one process)."""
+    def __init__(self, path):
+        self.path = path
+
     def __enter__(self):
-        os.makedirs(BUILD, exist_ok=True)
-        self.f = open(os.path.join(BUILD, '.lock'), 'w')
+        os.makedirs(os.path.dirname(self.path), exist_ok=True)
+        self.f = open(self.path, 'w')
         fcntl.flock(self.f, fcntl.LOCK_EX)
         return self
 
@@ -173,9 +187,8 @@ def build_program(name, variant, harness_srcs, with_libmp=True, with_nlw2=False,
             srcs += NLW2_SRCS
     for s in srcs:
         jobs.append((s, variant, (), ''))
-    with BuildLock():
-        objs = compile_many(jobs)
-        return link(name, objs, variant, libs)
+    objs = compile_many(jobs)
+    return link(name, objs, variant, libs)
 
 
 def gc_objects(max_bytes=6 << 30):
